@@ -45,6 +45,8 @@ type part struct {
 	Rule            string   `json:"rule"`
 	// BuildFlags are extra `go test -c` flags (e.g. "-race").
 	BuildFlags []string `json:"build_flags"`
+	// Args are extra arguments for the part's test binary (enum parts).
+	Args []string `json:"args"`
 	// Supplementary parts add evidence but are not the deciding step: they do
 	// not enter the summed counts nor the exhaustive flag.
 	Supplementary bool   `json:"supplementary"`
@@ -734,6 +736,7 @@ func runEnum(s *part, root, scratch, tier string, passthru []string) *PartResult
 	if budget > 0 {
 		args = append(args, "-budget", budget.String())
 	}
+	args = append(args, s.Args...)
 	args = append(args, passthru...)
 	cmd := exec.Command(bin, args...)
 	cmd.Dir = filepath.Join(root, s.Harness)
